@@ -2,6 +2,7 @@
 A case is {"op": name, "fa": spec, ["fb": spec], ["maxlen": k], ...}.  impl_case() runs pyformlang,
 coq_expr() gives the Coq expression evaluating the model / certified oracle on the same case, and
 judge_case() compares."""
+import common
 import falib
 from common import cq, chunks
 
@@ -448,6 +449,9 @@ def check_cases(ctx, module, cases, extra_judge=None):
             ctx.nontriv([c["op"], c["fa"], c.get("fb")])
         if i % 37 == 0:
             ctx.sample({"op": c["op"], "fa": c["fa"], "fb": c.get("fb"), "impl": {k: v for k, v in obs[i].items() if k in ("bool", "exc")}})
+        if mvs[i] == common.MODEL_TIMEOUT:
+            ctx.dist["model / oracle evaluation exceeded its time budget (case skipped, not judged)"] += 1
+            continue
         judge_case(ctx, c, obs[i], mvs[i])
         if extra_judge:
             extra_judge(ctx, c, obs[i], mvs[i])
